@@ -162,6 +162,9 @@ class Program:
                 tree = ast.parse(src, filename=str(f))
             except SyntaxError as e:
                 raise AnalysisError(f"parse error in {rel}: {e}") from e
+            if self._min_files is None:
+                from . import unextract
+                self.n_unextracted = getattr(self, "n_unextracted", 0) + unextract.normalise(tree, str(rel))
             self.n_alpha_renames = getattr(self, "n_alpha_renames", 0) + alpha.normalise(tree, str(rel))
             self.modules[name] = Module(name, f, str(rel), src, tree, is_pkg)
         if len(self.modules) < (MIN_FILES if self._min_files is None else self._min_files):
